@@ -71,6 +71,17 @@ Definition dg_insert (d : dataset) (g : gname) (t : triple) : dataset * bool :=
 Definition dg_remove (d : dataset) (g : gname) (t : triple) : dataset * bool :=
   ds_remove d (mkQ t g).
 
+(* MutableGraph's default bulk mutations, called through the view:
+   remove_matching = collect triples_matching(..) of the VIEW, then remove each through the view;
+   retain_matching = collect the view's triples that do NOT match, then remove each *)
+Definition dg_remove_list (d : dataset) (g : gname) (ts : list triple) : dataset * nat :=
+  fold_left (fun acc t => let '(d', b) := dg_remove (fst acc) g t in (d', if b then S (snd acc) else snd acc))
+            ts (d, O).
+Definition dg_remove_matching (d : dataset) (g : gname) sm pm om : dataset * nat :=
+  dg_remove_list d g (dg_matching d g sm pm om).
+Definition dg_retain_matching (d : dataset) (g : gname) sm pm om : dataset :=
+  fst (dg_remove_list d g (filter (fun t => negb (triple_matches sm pm om t)) (dg_triples d g))).
+
 (* ---------- GraphAsDataset ---------- *)
 Inductive gad_result := GadOk (changed : bool) | GadOnlyDefaultGraph.
 
@@ -131,14 +142,37 @@ Inductive op :=
 | QGraph (g : option N) (sm pm om : mdesc)                    (* graph(g).triples_matching *)
 | QGraphAll (g : option N)                                    (* graph(g).triples *)
 | QUnionAll | QPUnionAll (gm : gdesc)
+| VRemoveMatching (g : option N) (sm pm om : mdesc)           (* graph_mut(g).remove_matching *)
+| VRetainMatching (g : option N) (sm pm om : mdesc)           (* graph_mut(g).retain_matching *)
+| QUnionAtoms (kind : N)                                      (* union_graph().iris() etc. *)
+| QGraphAtoms (g : option N) (kind : N)                       (* graph(g).iris() etc. *)
 | QDirect (sm pm om : mdesc) (gm : gdesc).                    (* quads_matching on the store *)
 
 Inductive out :=
 | OFlag (b : bool)
 | OTriples (l : list tt)        (* multiset: compared after sorting on the harness side *)
-| OQuads (l : list tq).
+| OQuads (l : list tq)
+| OCount (n : N)
+| OTerms (l : list N).           (* a set: compared after sorting and removing duplicates *)
 
-Definition step (d : dataset N) (o : op) : dataset N * out :=
+(* the harness's term pool: kind and atoms (for a quoted triple: the atoms of its constituents)
+   of each identifier; kinds: 0 blank node, 1 IRI, 2 literal, 3 triple, 4 variable *)
+Definition pool := list (N * (N * list N * list N)).   (* id -> kind, atoms, quoted-triple constituents *)
+Fixpoint pool_get3 (p : pool) (t : N) : N * list N * list N :=
+  match p with
+  | [] => (99, [], [])
+  | (k, v) :: r => if N.eqb k t then v else pool_get3 r t
+  end.
+Definition pool_get (p : pool) (t : N) : N * list N := fst (pool_get3 p t).
+Definition pool_tc (p : pool) (t : N) : list N := snd (pool_get3 p t).
+Definition atoms_of_kind (p : pool) (kind : N) (l : list tt) : list N :=
+  filter (fun a => N.eqb (fst (pool_get p a)) kind)
+         (flat_map (fun t => snd (pool_get p (ts t)) ++ snd (pool_get p (tp t)) ++ snd (pool_get p (to_ t))) l).
+(* quoted triples (kind 3) are enumerated as terms, not atoms: every triple-kind constituent *)
+Definition triple_terms (p : pool) (l : list tt) : list N :=
+  flat_map (fun t => pool_tc p (ts t) ++ pool_tc p (tp t) ++ pool_tc p (to_ t)) l.
+
+Definition step (pl : pool) (d : dataset N) (o : op) : dataset N * out :=
   match o with
   | DInsert q => let '(d', b) := ds_insert N N.eqb d q in (d', OFlag b)
   | DRemove q => let '(d', b) := ds_remove N N.eqb d q in (d', OFlag b)
@@ -151,15 +185,21 @@ Definition step (d : dataset N) (o : op) : dataset N * out :=
       (d, OTriples (dg_matching N N.eqb d g (mdesc_t sm) (mdesc_t pm) (mdesc_t om)))
   | QGraphAll g => (d, OTriples (dg_triples N N.eqb d g))
   | QUnionAll => (d, OTriples (union_triples N d))
+  | VRemoveMatching g sm pm om =>
+      let '(d', n) := dg_remove_matching N N.eqb d g (mdesc_t sm) (mdesc_t pm) (mdesc_t om) in (d', OCount (N.of_nat n))
+  | VRetainMatching g sm pm om =>
+      (dg_retain_matching N N.eqb d g (mdesc_t sm) (mdesc_t pm) (mdesc_t om), OFlag true)
+  | QUnionAtoms k => (d, OTerms (if N.eqb k 3 then triple_terms pl (union_triples N d) else atoms_of_kind pl k (union_triples N d)))
+  | QGraphAtoms g k => (d, OTerms (if N.eqb k 3 then triple_terms pl (dg_triples N N.eqb d g) else atoms_of_kind pl k (dg_triples N N.eqb d g)))
   | QPUnionAll gm => (d, OTriples (punion_triples N d (gdesc_g gm)))
   | QDirect sm pm om gm =>
       (d, OQuads (ds_quads_matching N d (mdesc_t sm) (mdesc_t pm) (mdesc_t om) (gdesc_g gm)))
   end.
 
-Fixpoint run (d : dataset N) (ops : list op) : list out :=
+Fixpoint run (pl : pool) (d : dataset N) (ops : list op) : list out :=
   match ops with
   | [] => []
-  | o :: ops' => let '(d', r) := step d o in r :: run d' ops'
+  | o :: ops' => let '(d', r) := step pl d o in r :: run pl d' ops'
   end.
 
 (* graph-as-dataset histories *)
@@ -199,6 +239,15 @@ Fixpoint ins_sorted (k : list N) (l : list (list N)) : list (list N) :=
 Definition sort_keys (l : list (list N)) : list (list N) := fold_right ins_sorted [] l.
 Definition keys_eqb (a b : list (list N)) : bool := list_eqb str_eqb (sort_keys a) (sort_keys b).
 
+Fixpoint insN (k : N) (l : list N) : list N :=
+  match l with [] => [k] | x :: l' => if k <=? x then k :: l else x :: insN k l' end.
+Definition sortN (l : list N) := fold_right insN [] l.
+Fixpoint dedup_sorted (l : list N) : list N :=
+  match l with
+  | x :: ((y :: _) as r) => if N.eqb x y then dedup_sorted r else x :: dedup_sorted r
+  | _ => l
+  end.
+
 Definition gad_result_eqb (a b : gad_result) : bool :=
   match a, b with
   | GadOk x, GadOk y => Bool.eqb x y
@@ -210,6 +259,8 @@ Definition out_eqb (a b : out) : bool :=
   | OFlag x, OFlag y => Bool.eqb x y
   | OTriples x, OTriples y => keys_eqb (map tkey x) (map tkey y)
   | OQuads x, OQuads y => keys_eqb (map qkey x) (map qkey y)
+  | OCount x, OCount y => N.eqb x y
+  | OTerms x, OTerms y => str_eqb (dedup_sorted (sortN x)) (dedup_sorted (sortN y))
   | _, _ => false
   end.
 Definition gout_eqb (a b : gout) : bool :=
@@ -221,9 +272,9 @@ Definition gout_eqb (a b : gout) : bool :=
   end.
 
 (* a correspondence case: initial content (inserted one by one), ops, observed outputs *)
-Definition case_ok (init : list tq) (ops : list op) (observed : list out) : bool :=
+Definition case_ok (pl : pool) (init : list tq) (ops : list op) (observed : list out) : bool :=
   let d0 := fold_left (fun d q => fst (ds_insert N N.eqb d q)) init [] in
-  list_eqb out_eqb (run d0 ops) observed.
+  list_eqb out_eqb (run pl d0 ops) observed.
 Definition gcase_ok (init : list tt) (ops : list gop) (observed : list gout) : bool :=
   let g0 := fold_left (fun g t => fst (gr_insert N N.eqb g t)) init [] in
   list_eqb gout_eqb (grun g0 ops) observed.
